@@ -61,6 +61,10 @@ CLAIMED = {
          "unbounded z3 integer under ge/le/eq, string and boolean values, symbolic knowledge of each category); should_exclude_with is "
          "compared with the documented per-category formula by the solver", "DESIGN.md 4/C19",
          "symbolic execution of real code + z3 (symbolic current values, enumerated tag sequences)"),
+ "C10": ("FeatureLineDatabase.select_scenarios_by_line decided for an unconstrained z3 integer line against the 'entity at that line, else "
+         "nearest entity above' formula on rendered documents; parse_features/collect_feature_locations/@listfile on real scratch files for "
+         "every line 0..EOF+2 (and bare names), all pairs, several files; name selection through real runs", "DESIGN.md 4/C10",
+         "symbolic execution of real code + z3 (symbolic query line; solver-enumerated locations for the file wrapper)"),
 }
 NA_REASON = "check not built yet in this round (planned, see DESIGN.md section 4)"
 checks = []
